@@ -181,3 +181,81 @@ def h_emax(c):
         out2 = dp._calculate_emax_extreme_value_shocks(vals + fq(c["shift"]), axes, seg, params)
         res["shifted"] = arr_wire(out2)
     return res
+
+
+# ---- C18 ---------------------------------------------------------------------------
+def _val_arr(j):
+    data = [(-np.inf if v == "-inf" else (np.nan if v is None else fq(v))) for v in j["data"]]
+    return np.array(data, dtype=float).reshape(j["shape"])
+
+
+def h_argmax(c):
+    from lcm.argmax import argmax
+    a = jnp.asarray(_val_arr(c["a"]))
+    axis = tuple(c["axis"]) if c.get("axis") is not None else None
+    kwargs = {}
+    if "initial" in c:
+        kwargs["initial"] = -jnp.inf if c["initial"] == "-inf" else fq(c["initial"])
+    where = None
+    if "where" in c:
+        where = jnp.asarray(np.array(c["where"]["data"], dtype=bool).reshape(c["where"]["shape"]))
+    mode = c.get("mode", "eager")
+    if mode == "eager":
+        i, m = argmax(a, axis=axis, where=where, **kwargs)
+    elif mode == "jit":
+        f = jax.jit(lambda a_, w_: argmax(a_, axis=axis, where=w_, **kwargs))
+        i, m = f(a, where)
+    else:  # fused: the array is produced inside the same jitted computation (exact integer ops)
+        def g(x, w_):
+            y = x * 2.0 + 1.0
+            y = (y - 1.0) / 2.0
+            return argmax(y, axis=axis, where=w_, **kwargs)
+        i, m = jax.jit(g)(a, where)
+    return {"argmax": arr_wire(np.asarray(i)), "max": arr_wire(np.asarray(m))}
+
+
+def h_segment_argmax(c):
+    from lcm.argmax import segment_argmax
+    a = jnp.asarray(_val_arr(c["data"]))
+    ids = jnp.asarray(c["segment_ids"], dtype=jnp.int32)
+    n = c["num_segments"]
+    mode = c.get("mode", "eager")
+    if mode == "eager":
+        i, m = segment_argmax(a, ids, n)
+    elif mode == "jit":
+        i, m = jax.jit(segment_argmax, static_argnums=2)(a, ids, n)
+    else:
+        def g(x, s):
+            y = (x * 2.0 + 1.0 - 1.0) / 2.0
+            return segment_argmax(y, s, n)
+        i, m = jax.jit(g)(a, ids)
+    return {"argmax": arr_wire(np.asarray(i)), "max": arr_wire(np.asarray(m))}
+
+
+def h_discrete_no_shocks(c):
+    from lcm.discrete_problem import _solve_discrete_problem_no_shocks
+    a = jnp.asarray(_val_arr(c["values"]))
+    axes = tuple(c["axes"]) if c.get("axes") is not None else None
+    seg = None
+    if c.get("segment_ids") is not None:
+        seg = {"segment_ids": jnp.asarray(c["segment_ids"], dtype=jnp.int32), "num_segments": c["num_segments"]}
+    out = _solve_discrete_problem_no_shocks(a, axes, seg, {})
+    return arr_wire(np.asarray(out))
+
+
+def h_fused_real(c):
+    """argmax of a real-valued array produced by fused transcendental ops inside one jit;
+    returns the positions, the max, and the array as computed outside the jit"""
+    from lcm.argmax import argmax
+    x = jnp.asarray(_val_arr(c["a"]), dtype=jnp.float32 if c.get("dtype") == "f32" else jnp.float64)
+    axis = tuple(c["axis"])
+    where = jnp.asarray(np.array(c["where"]["data"], dtype=bool).reshape(c["where"]["shape"]))
+
+    def prod(x):
+        return jnp.log1p(jnp.exp(x * 0.37)) * 1.7 + jnp.sin(x) * x
+
+    def g(x, w):
+        return argmax(prod(x), axis=axis, where=w, initial=-jnp.inf)
+    i, m = jax.jit(g)(x, where)
+    return {"argmax": arr_wire(np.asarray(i)), "max": arr_wire(np.asarray(m, dtype=float)),
+            "a": arr_wire(np.asarray(prod(x), dtype=float))}
